@@ -563,6 +563,42 @@ def inline_module(tree: ast.Module, known: Optional[Set[str]]) -> ast.Module:
                 h = None
             if h is not None and mode in ("stmt", "assign", "return") and h.is_gen:
                 h = None
+            if h is None and isinstance(st, (ast.Return, ast.Assign)) and isinstance(st.value, ast.Call) and isinstance(st.value.func, ast.Name) and st.value.func.id == "list" \
+                    and len(st.value.args) == 1 and not st.value.keywords and isinstance(st.value.args[0], ast.Call):
+                # a drained generator:  return list(G(args))  /  x = list(G(args))  with G a helper generator - the caller builds the
+                # list G yields:  acc = []; <body of G with `yield v` as acc.append(v), `yield from e` as acc.extend(e)>; return acc
+                gcall = st.value.args[0]
+                hg = lookup(_callee_key(gcall, caller_cls, caller_self, enclosing + [fn]), caller_cls, enclosing + [fn])
+                if hg is not None and hg.node is not fn and hg.is_gen:
+                    ys_ = [y for y in ast.walk(hg.node) if isinstance(y, (ast.Yield, ast.YieldFrom))]
+                    stmt_ys = [x.value for x in ast.walk(hg.node) if isinstance(x, ast.Expr) and isinstance(x.value, (ast.Yield, ast.YieldFrom))]
+                    nested_defs = [x for x in ast.walk(hg.node) if isinstance(x, (ast.FunctionDef, ast.Lambda)) and x is not hg.node]
+                    if len(ys_) == len(stmt_ys) and all(y.value is not None for y in ys_) and not nested_defs:
+                        acc = None
+                        if isinstance(st, ast.Assign) and len(st.targets) == 1 and isinstance(st.targets[0], ast.Name):
+                            acc = st.targets[0].id
+                        accn = acc or f"__acc{next(_counter)}"
+                        try:
+                            body = _expand(hg, gcall, None, names_now() | {accn}, caller_self, st)
+                        except _NotInlinable:
+                            body = None
+                        if body is not None:
+                            class Y(ast.NodeTransformer):
+                                def visit_Expr(self, node):
+                                    if isinstance(node.value, ast.Yield):
+                                        call_ = ast.Call(func=ast.Attribute(value=ast.Name(id=accn, ctx=ast.Load()), attr="append", ctx=ast.Load()), args=[node.value.value], keywords=[])
+                                        return ast.copy_location(ast.Expr(value=ast.copy_location(call_, node)), node)
+                                    if isinstance(node.value, ast.YieldFrom):
+                                        call_ = ast.Call(func=ast.Attribute(value=ast.Name(id=accn, ctx=ast.Load()), attr="extend", ctx=ast.Load()), args=[node.value.value], keywords=[])
+                                        return ast.copy_location(ast.Expr(value=ast.copy_location(call_, node)), node)
+                                    return node
+                            body = [Y().visit(b_) for b_ in body]
+                            init = ast.copy_location(ast.Assign(targets=[ast.Name(id=accn, ctx=ast.Store())], value=ast.List(elts=[], ctx=ast.Load()), lineno=st.lineno), st)
+                            inlined_names.update(_stored_names(body) | {accn})
+                            budget[0] -= 1
+                            changed_any = True
+                            tail_ = [ast.copy_location(ast.Return(value=ast.Name(id=accn, ctx=ast.Load())), st)] if isinstance(st, ast.Return) else []
+                            return [init] + rewrite_block(body, budget) + tail_
             if h is None:
                 # nested call in a simple statement
                 if isinstance(st, (ast.Expr, ast.Assign, ast.AnnAssign, ast.AugAssign, ast.Return)):
